@@ -214,6 +214,12 @@ func c05Sync() *altair.SyncAggregate {
 	return &altair.SyncAggregate{SyncCommitteeBits: bitfield.NewBitvector512()}
 }
 
+// promPresenting is a metrics service that presents as Prometheus, as vouch's does whenever a metrics address is
+// configured: the proposer then registers and feeds its Prometheus collectors (process-wide, once).
+type promPresenting struct{ nullmetrics.Service }
+
+func (promPresenting) Presenter() string { return "prometheus" }
+
 func c05Payload(b byte) *bellatrix.ExecutionPayload {
 	return &bellatrix.ExecutionPayload{FeeRecipient: bellatrix.ExecutionAddress{1}, BlockHash: phase0.Hash32{b}, ExtraData: []byte{}}
 }
@@ -284,7 +290,7 @@ func c05Build(e *c05Env) *standardproposer.Service {
 		accts.byIndex[8] = e.acct2
 	}
 	params := []standardproposer.Parameter{
-		standardproposer.WithLogLevel(zerolog.Disabled), standardproposer.WithMonitor(&nullmetrics.Service{}),
+		standardproposer.WithLogLevel(zerolog.Disabled), standardproposer.WithMonitor(promPresenting{}),
 		standardproposer.WithChainTime(newChainTime(-int64(c05Slot)*int64(12*time.Second), 12*time.Second, 32)),
 		standardproposer.WithProposalDataProvider(e), standardproposer.WithValidatingAccountsProvider(accts),
 		standardproposer.WithExecutionChainHeadProvider(e), standardproposer.WithProposalSubmitter(e),
